@@ -644,6 +644,83 @@ func runC18(c *Ctx) {
 		}
 	}
 	r.Floor("R2", "dial call sites", nDial, 3)
+	// registration is sent once per dial: every success return of the connect routine follows a dial on that path
+	isDialCall := func(in ssa.Instruction) bool {
+		cc := callOf(in)
+		if cc == nil {
+			return false
+		}
+		if _, isGo := in.(*ssa.Go); isGo {
+			return false
+		}
+		n := calleeName(cc)
+		return strings.Contains(n, "DialContext") || strings.HasSuffix(n, ").Dial") || n == "net.Dial" || n == "net.DialTimeout" || n == "crypto/tls.Dial"
+	}
+	var dialHelper func(fn *ssa.Function, depth int) bool
+	isDialStep := func(in ssa.Instruction) bool {
+		if isDialCall(in) {
+			return true
+		}
+		cc := callOf(in)
+		if cc == nil || cc.IsInvoke() {
+			return false
+		}
+		if _, isGo := in.(*ssa.Go); isGo {
+			return false
+		}
+		cal := cc.StaticCallee()
+		return cal != nil && cal.Package() == c.Client && dialHelper(cal, 0)
+	}
+	// a helper counts as a dial step when every return that is not definitely an error follows a dial
+	dialHelper = func(fn *ssa.Function, depth int) bool {
+		if depth > 2 || fn.Blocks == nil {
+			return false
+		}
+		ok := true
+		nRet := 0
+		funcInstrs(fn, func(in ssa.Instruction) {
+			rt, isR := in.(*ssa.Return)
+			if !isR || len(rt.Results) == 0 {
+				return
+			}
+			nRet++
+			ev := retVal(rt, len(rt.Results)-1)
+			if call, isC := ev.(*ssa.Call); isC {
+				n := calleeName(&call.Call)
+				if n == "fmt.Errorf" || n == "errors.New" {
+					return
+				}
+			}
+			if c.guardedNonNil(ev, rt) {
+				return
+			}
+			step := func(x ssa.Instruction) bool {
+				if isDialCall(x) {
+					return true
+				}
+				xc := callOf(x)
+				if xc == nil || xc.IsInvoke() {
+					return false
+				}
+				if c2 := xc.StaticCallee(); c2 != nil && c2.Package() == c.Client && c2 != fn {
+					return dialHelper(c2, depth+1)
+				}
+				return false
+			}
+			if !SetDominates(fn, step, rt) {
+				ok = false
+			}
+		})
+		return ok && nRet > 0
+	}
+	funcInstrs(cn, func(in ssa.Instruction) {
+		rt, ok := in.(*ssa.Return)
+		if !ok || len(rt.Results) != 1 || !isNilConst(retVal(rt, 0)) {
+			return
+		}
+		okD := SetDominates(cn, isDialStep, rt)
+		r.Add("R2", "success-follows-dial", c.InstrPos(rt), c.FuncKey(cn), "Connect reports success (and registration is sent) only after dialling on that path", okD, "a dial step dominates the success return")
+	})
 	// stores to Config.Server in the connect routine
 	nSrv := 0
 	funcInstrs(cn, func(in ssa.Instruction) {
@@ -805,18 +882,26 @@ func runC18(c *Ctx) {
 		okT := ticker != nil && c.cfgFieldLoad(ticker.Call.Args[0], "PingFreq")
 		r.Add("R4", "ticker-period", posIn(c, ticker), c.FuncKey(pingFn), "the ticker period is PingFreq", okT, "time.NewTicker(Config.PingFreq)")
 		okP := false
+		whyP := "no tick case found"
 		for _, op := range ChanOps(pingFn) {
 			if op.Kind == "recv" && op.InSelect && isTimerChan(op.Chan) {
 				if blk := selectCaseBlock(op.Sel, op.State); blk != nil {
-					for x := range ReachFrom(blk.Instrs[0], true, func(y ssa.Instruction) bool { return y == ssa.Instruction(op.Sel) }) {
-						if cc := callOf(x); cc != nil && cc.StaticCallee() == pingCmd {
-							okP = true
+					// every path from the tick case back to the select passes a Ping call
+					isPing := func(x ssa.Instruction) bool {
+						cc := callOf(x)
+						return cc != nil && cc.StaticCallee() == pingCmd
+					}
+					reach := ReachFrom(blk.Instrs[0], true, isPing)
+					okP, whyP = true, "Ping is called on every path of the tick case"
+					for x := range reach {
+						if (x == ssa.Instruction(op.Sel) || isReturn(x)) && !isPing(x) {
+							okP, whyP = false, "a tick can pass without a PING being sent"
 						}
 					}
 				}
 			}
 		}
-		r.Add("R4", "ping-per-tick", c.Pos(pingFn.Pos()), c.FuncKey(pingFn), "a PING is sent on each tick", okP, "Ping called in the tick case of the select")
+		r.Add("R4", "ping-per-tick", c.Pos(pingFn.Pos()), c.FuncKey(pingFn), "a PING is sent on each tick", okP, whyP)
 	}
 }
 
@@ -999,7 +1084,22 @@ func runC19(c *Ctx) {
 							}
 						}
 					}
+					// nothing else may modify the request set between its construction and Slice()
+					extra := ""
+					for _, x := range CallSites(neg) {
+						cal := x.Common().StaticCallee()
+						if cal == nil || x.Common().IsInvoke() || len(x.Common().Args) == 0 || x.Common().Args[0] != set {
+							continue
+						}
+						switch cal.Name() {
+						case "Intersect", "Size", "Slice", "Has":
+						default:
+							extra = cal.Name() + " at " + c.InstrPos(x)
+						}
+					}
 					switch {
+					case extra != "":
+						why = "the request set is also modified by " + extra
 					case inter == nil || !instrDominates(inter, sl):
 						why = "the set is not intersected with the supported set before Slice()"
 					case !sizeOK:
